@@ -19,16 +19,19 @@ package arp
 // ---------------------------------------------------------------------------------------------
 // C14 / C11: the JSON encoder emits "ip", "mac", "vendor", each bound to its own field, in this order
 //@ func easyjsonD3b49167EncodeGithubComVByteCpuSxPkgScanArp
+//@   sig out, in
 //@   props C14 C11
 //@   observe RawByte, RawString, String
 //@   entry row object: [call RawByte(out, 123) ; call RawString(out, "\"ip\":") ; call String(out, in.IP) ; call RawString(out, ",\"mac\":") ; call String(out, in.MAC) ;
 //@                      call RawString(out, ",\"vendor\":") ; call String(out, in.Vendor) ; call RawByte(out, 125)] -> exit
 //@ func (ScanResult).MarshalJSON
+//@   sig v
 //@   props C14 C11
 //@   observe easyjsonD3b49167EncodeGithubComVByteCpuSxPkgScanArp, BuildBytes
 //@   entry row enc: [call easyjsonD3b49167EncodeGithubComVByteCpuSxPkgScanArp(bind_w, v) ; call BuildBytes(_, _) as (b)] when ret0 == b -> exit
 // de-duplication identity of an ARP result is the host address
 //@ func (*ScanResult).ID
+//@   sig r
 //@   props C14
 //@   ensures ret == r.IP
 
@@ -36,16 +39,19 @@ package arp
 // C11: ARP cache. Put and Get use the same key (the address's String form) and hold the lock around the map
 // access; Get changes nothing; the MAC chosen for a request is the cache entry of THAT address, else the gateway's.
 //@ func (*Cache).Put
+//@   sig c, ip, mac
 //@   props C11 C05 C01 C07 C13 C12 C02 C17
 //@   observe Lock, Unlock, String
 //@   entry row put: [call Lock(_) ; call String(ip) as (k) ; call Unlock(_)]
 //@                    when mapin(c.cache, k) && mapget(c.cache, k) == mac && (forall j int :: j != k ==> mapin(c.cache, j) == pre(mapin(c.cache, j)) && mapget(c.cache, j) == pre(mapget(c.cache, j))) -> exit
 //@ func (*Cache).Get
+//@   sig c, ip
 //@   props C11 C05 C01 C07 C13 C12 C02 C17
 //@   observe RLock, RUnlock, String
 //@   modifies nothing
 //@   entry row get: [call RLock(_) ; call String(ip) as (k) ; call RUnlock(_)] when (mapin(c.cache, k) ==> ret == mapget(c.cache, k)) && (!mapin(c.cache, k) ==> ret == nil) -> exit
 //@ func NewCacheRequestGenerator$1
+//@   sig ip
 //@   props C11 C05 C01 C07 C13 C12 C02 C17
 //@   observe Get
 //@   entry row cached:  [call Get(cache, ip) as (mac)] when mac != nil && ret == mac -> exit
@@ -57,10 +63,12 @@ package arp
 //@ spec aip(line int) int
 //@ spec amac(line int) int
 //@ func (*ScanResult).UnmarshalJSON
+//@   sig v, data
 //@   trusted generated easyjson decoder (result_easyjson.go): assigns exactly the members present in the input; "ip" -> IP, "mac" -> MAC
 //@   modifies v.IP, v.MAC, v.Vendor
 //@   ensures ret == nil ==> v.IP == ite(ahasip(data), aip(data), old(v.IP)) && v.MAC == ite(ahasmac(data), amac(data), old(v.MAC))
 //@ func FillCache
+//@   sig cache, r
 //@   props C11 C05 C01 C07 C13 C12 C02 C17
 //@   observe (*bufio.Scanner).Scan, (*bufio.Scanner).Bytes, (*bufio.Scanner).Err, UnmarshalJSON, net.ParseIP, net.ParseMAC, Put
 //@   loop 0 row eof:     [call Scan(_) as (more) ; call Err(_) as (e)] when !more && ret == e -> exit
@@ -77,6 +85,7 @@ package arp
 // addresses are 6-byte hardware / 4-byte protocol addresses; the record carries the ARP SENDER addresses of this frame.
 //@ pred arpchain(d []gopacket.LayerType) = len(d) == 2 && d[0] == layers.LayerTypeEthernet && d[1] == layers.LayerTypeARP
 //@ func (*ScanMethod).ProcessPacketData
+//@   sig s, data, _
 //@   props C06 C03 C11 C16 C14 C20
 //@   observe DecodeLayers, String, Put, maplookup
 //@   entry row undecodable: [call DecodeLayers(s.parser, data, _) as (e)] when e != nil && ret == e -> exit
@@ -88,6 +97,7 @@ package arp
 
 // C03: capture filter text: "arp", or "arp src net " + subnet
 //@ func BPFFilter
+//@   sig r
 //@   props C03
 //@   modifies nothing
 //@   observe (*net.IPNet).String
@@ -98,6 +108,7 @@ package arp
 // C05: ARP request frames: broadcast Ethernet frame from the request's source MAC; who-has for the request's
 // destination address (4-byte form), sender = the request's source MAC / address, 6/4-byte address sizes
 //@ func (*PacketFiller).Fill
+//@   sig arg0, packet, r
 //@   props C05 C11 C17 C01 C19 C02 C07 C13
 //@   observe To4, gopacket.SerializeLayers
 //@   entry row request: [call To4(r.DstIP) as (d4) ; call gopacket.SerializeLayers(packet, bind_opt, bind_ls) as (se)]
@@ -113,6 +124,7 @@ package arp
 // C06: the parser decodes from Ethernet into THIS method's own Ethernet and ARP structs, skips unsupported inner
 // layers, and keeps gopacket's panic recovery on (a decoder panic surfaces as an error, never as a crash)
 //@ func NewScanMethod
+//@   sig psrc, results
 //@   props C06 C03 C14 C16 C20
 //@   observe gopacket.NewDecodingLayerParser
 //@   entry row parser: [call gopacket.NewDecodingLayerParser(layers.LayerTypeEthernet, bind_ds) as (p)]
@@ -122,12 +134,14 @@ package arp
 // outer function of the ARP-cache stage: the wrapped generator is asked with the caller's context and range; its
 // error is passed on with no stream; otherwise one worker bound to exactly that stream and the returned channel
 //@ func (*cacheReqGenerator).GenerateRequests
+//@   sig g, ctx, r
 //@   props C13 C11 C07 C12 C05 C01 C02 C17
 //@   observe GenerateRequests
 //@   entry row generr: [call GenerateRequests(g.reqgen, ctx, r) as (rs, e)] when e != nil && ret0 == nil && ret1 == e -> exit
 //@   entry row start:  [call GenerateRequests(g.reqgen, ctx, r) as (rs, e) ; go (*cacheReqGenerator).GenerateRequests$1{result: bind_res, requests: bind_rq, g: bind_g2}]
 //@                        when e == nil && ret0 == res && ret1 == nil && rq == rs && g2 == g -> exit
 //@ func NewCacheRequestGenerator
+//@   sig reqgen, gatewayMAC, cache
 //@   props C11 C13 C05 C01 C07 C12 C02 C17
 //@   ensures isptr(ret, cacheReqGenerator) && asptr(ret, cacheReqGenerator).reqgen == reqgen
 //@   ensures closureof(asptr(ret, cacheReqGenerator).getMAC, "NewCacheRequestGenerator$1")
@@ -136,6 +150,7 @@ package arp
 //@   props C11 C05 C01 C07 C13 C12 C02 C17
 //@   ensures ret != nil && fresh(ret) && (forall k int :: !mapin(ret.cache, k))
 //@ func (*Cache).Delete
+//@   sig c, ip
 //@   props C11 C05 C01 C07 C13 C12 C02 C17
 //@   observe Lock, Unlock, String
 //@   entry row del: [call Lock(_) ; call String(ip) as (k) ; call Unlock(_)]
@@ -143,6 +158,7 @@ package arp
 
 // plain-text form of a record: printing never panics, whatever the scanned host put into the record (C03 C11)
 //@ func (*ScanResult).String
+//@   sig r
 //@   props C03 C11
 
 // the scan method's packet stream is its packet source's, its results are the result channel's
@@ -151,6 +167,7 @@ package arp
 //@   observe Packets
 //@   entry row forward: [call Packets(recv.PacketSource, _, _) as (c)] when ret == c -> exit
 //@ func (*ScanMethod).Results
+//@   sig s
 //@   props C03 C14 C16 C06 C08 C20 C09 C10 C11 C12
 //@   observe Chan
 //@   entry row chan: [call Chan(s.results) as (c)] when ret == c -> exit
